@@ -75,6 +75,11 @@ CHECKS = {
         technique="TLA+ design spec Pool (sync.Pool of canonicalizers: Acquire/Configure/Canonicalize/Release over the real field list, concurrent users) model-checked by TLC and bound to the code by an in-package reflection test; functional-dependency contract Determinism validated by TLC over digests of (name, fingerprint, canonical IR) from repeated, interleaved, concurrent, multi-process, multi-directory fingerprint runs",
         text="TLC checks NoResidue for every interleaving of two users over two pooled objects (and that forgetting one field in the reset breaks it); the real FingerprintSourceAdvanced is run on generated multi-loop / select / switch / closure sources under three policies in seeded interleaved orders, from 12-32 goroutines, in 7 processes with GOMAXPROCS 1/2/16 and from a copy of the module in another directory; TLC checks that the digest is a function of (policy, source).",
         note=TRUST + "; thin contract: detection power comes from the drivers' exploration steered by the pool model"),
+    "C16": dict(
+        level="model_checking", ref="3/C16",
+        technique="TLA+ design spec Collect (file-selection walk vs contract, all trees depth<=2, <=5 entries, every target) model-checked by TLC; generated directory trees run through the real `sfw check [--strict]` / `sfw scan`, an independent go/parser oracle lists every function/method/literal with body, runs validated by TLC against CollectContract",
+        text="TLC proves the walk selects exactly the files the contract requires for all small trees and targets; 4 (thorough 12) seeded trees (nested packages, multi-file packages, methods, nested closures, generics, init functions, test-like and hidden names, vendor/hidden directories incl. as the target itself, uncompilable and oversize files) are checked and scanned, and every report is validated: every required file reported, no silent empty entry, every function attributed to its real file and line, unanalysable files carry an error, strict mode fails exactly when an entry has an error, scan counts cover all functions.",
+        note=TRUST + "; blank functions excluded; files the Go tool ignores count as unanalysable; unreadable files not generated (root)"),
 }
 
 NOT_YET = {}
